@@ -1,5 +1,171 @@
-(* C18 - rollout inverts flattening (statements; proofs in proofs/RolloutSpec.v) *)
-Require Import D42.Prelude D42.Rollout.
+(* C18 - rollout is the inverse of flattening dotted keys.
+   Statements only; proofs in proofs/RolloutStr.v, RolloutDict.v, RolloutSpec.v.
+   Model: theories/Rollout.v (rollout = the two loops of d42/utils/_rollout.py on
+   insertion-ordered association lists; split/join = str.split/str.join). *)
+Require Import D42.Prelude D42.Rollout D42P.RolloutStr D42P.RolloutDict D42P.RolloutSpec.
+From Coq Require Import Permutation.
+
+(* (1) split inverts join on unambiguous segment lists ... *)
+Theorem split_join :
+  forall (sep : pystr) (segs : list pystr),
+    sep <> [] -> segs <> [] -> unambiguous sep segs = true ->
+    split sep (join sep segs) = segs.
+Proof. exact split_join_lemma. Qed.
+Print Assumptions split_join.
+
+(* ... and for a 1-character separator every list of separator-free segments is unambiguous *)
+Theorem sepfree_unambiguous_1 :
+  forall (c : N) (segs : list pystr),
+    forallb (fun seg => negb (infix [c] seg)) segs = true -> unambiguous [c] segs = true.
+Proof. exact sepfree_unambiguous_1_lemma. Qed.
+Print Assumptions sepfree_unambiguous_1.
+
+(* any separator: no segment contains the separator's first character *)
+Theorem headfree_unambiguous_sep :
+  forall (sep : pystr) (segs : list pystr),
+    headfree sep segs = true -> unambiguous sep segs = true.
+Proof. exact headfree_unambiguous. Qed.
+Print Assumptions headfree_unambiguous_sep.
+
+(* multi-character separators need more than separator-free segments *)
+Theorem split_join_refuted :
+  exists (sep : pystr) (segs : list pystr),
+    sep <> [] /\ forallb (fun seg => negb (infix sep seg)) segs = true
+    /\ split sep (join sep segs) <> segs.
+Proof. exact split_join_refuted_lemma. Qed.
+Print Assumptions split_join_refuted.
+
+(* (2) rollout inverts flattening: every well-formed nested mapping cs (+ optional top-level
+   [...: ...]), every separator under which its paths are unambiguous, every order of the
+   flat entries; the result is a legitimate dict that is == (Python dict equality: same
+   keys incl. optional markers, same payload ids) to the nested mapping. *)
+Theorem rollout_flatten_inverse :
+  forall (sep : pystr) (ell : bool) (cs : tmap) (flat : rdict) (fuel : nat),
+    sep <> [] -> wf_tmap cs = true -> unambiguous_tmap sep cs = true ->
+    Permutation flat (map (ent sep) (flat_all ell cs)) ->
+    tmap_depth cs < fuel ->
+    exists d, rollout fuel sep flat = Ok d
+              /\ dict_keys_ok d = true /\ dict_equiv d (of_tmap ell cs) = true.
+Proof. exact rollout_flatten_inverse_lemma. Qed.
+Print Assumptions rollout_flatten_inverse.
+
+Theorem rollout_flatten_inverse_1char :
+  forall (c : N) (ell : bool) (cs : tmap) (flat : rdict) (fuel : nat),
+    wf_tmap cs = true -> sepfree_tmap [c] cs = true ->
+    Permutation flat (map (ent [c]) (flat_all ell cs)) ->
+    tmap_depth cs < fuel ->
+    exists d, rollout fuel [c] flat = Ok d
+              /\ dict_keys_ok d = true /\ dict_equiv d (of_tmap ell cs) = true.
+Proof. exact rollout_flatten_inverse_1char_lemma. Qed.
+Print Assumptions rollout_flatten_inverse_1char.
+
+(* (3) rollout of an already nested mapping without separators is the identity (same
+   entries in the same order) *)
+Theorem rollout_nested_id :
+  forall (fuel : nat) (sep : pystr) (d : rdict),
+    sep <> [] -> nested_ok sep (RDict d) = true -> vdepth (RDict d) <= fuel ->
+    rollout fuel sep d = Ok d.
+Proof. exact rollout_nested_id_lemma. Qed.
+Print Assumptions rollout_nested_id.
+
+(* the carved-out corners are real *)
+Theorem rollout_flatten_inverse_refuted_ambiguous :
+  exists (sep : pystr) (cs : tmap) (d : rdict),
+    sep <> [] /\ wf_tmap cs = true /\ sepfree_tmap sep cs = true /\ unambiguous_tmap sep cs = false
+    /\ rollout (S (tmap_depth cs)) sep (map (ent sep) (flat_all false cs)) = Ok d
+    /\ dict_equiv d (of_tmap false cs) = false.
+Proof. exact rollout_flatten_inverse_refuted_ambiguous_lemma. Qed.
+Print Assumptions rollout_flatten_inverse_refuted_ambiguous.
+
+Theorem rollout_flatten_inverse_refuted_empty_node :
+  exists (sep : pystr) (cs : tmap) (d : rdict),
+    sep <> [] /\ wf_tmap cs = false /\ unambiguous_tmap sep cs = true
+    /\ rollout (S (tmap_depth cs)) sep (map (ent sep) (flat_all false cs)) = Ok d
+    /\ dict_equiv d (of_tmap false cs) = false.
+Proof. exact rollout_flatten_inverse_refuted_empty_node_lemma. Qed.
+Print Assumptions rollout_flatten_inverse_refuted_empty_node.
+
+Theorem rollout_flatten_inverse_refuted_optional_node :
+  exists (sep : pystr) (cs : tmap) (d : rdict),
+    sep <> [] /\ wf_tmap cs = false /\ unambiguous_tmap sep cs = true
+    /\ rollout (S (tmap_depth cs)) sep (map (ent sep) (flat_all false cs)) = Ok d
+    /\ dict_equiv d (of_tmap false cs) = false.
+Proof. exact rollout_flatten_inverse_refuted_optional_node_lemma. Qed.
+Print Assumptions rollout_flatten_inverse_refuted_optional_node.
+
+(* ---- non-vacuity: a depth-3 mapping with optional leaves, an empty-string key, the same
+   segment plain and optional on one level, and a top-level [...: ...]:
+     {"id": 1, "r": {"n": 2, "f": {"id": 3, optional("d"): 4, "": 5}, optional("x"): 6},
+      optional("id"): 7, ...: ...}                                                       ---- *)
 Open Scope N_scope.
-Example stub_split : split [46] [97;46;98] = [[97];[98]].
+Definition ex_dot : pystr := [46].
+Definition ex_cs : tmap :=
+  [ (false, [105; 100], TLeaf 1);
+    (false, [114], TNode [ (false, [110], TLeaf 2);
+                           (false, [102], TNode [ (false, [105; 100], TLeaf 3);
+                                                  (true, [100], TLeaf 4);
+                                                  (false, [], TLeaf 5) ]);
+                           (true, [120], TLeaf 6) ]);
+    (true, [105; 100], TLeaf 7) ].
+
+(* its flattening, shuffled:
+   {optional("r.x"): 6, "r.f.": 5, ...: ..., optional("id"): 7, "r.f.id": 3, "id": 1,
+    optional("r.f.d"): 4, "r.n": 2} *)
+Definition ex_flat : rdict :=
+  [ (RKStr true [114; 46; 120], RLeaf 6);
+    (RKStr false [114; 46; 102; 46], RLeaf 5);
+    (RKEll, REll);
+    (RKStr true [105; 100], RLeaf 7);
+    (RKStr false [114; 46; 102; 46; 105; 100], RLeaf 3);
+    (RKStr false [105; 100], RLeaf 1);
+    (RKStr true [114; 46; 102; 46; 100], RLeaf 4);
+    (RKStr false [114; 46; 110], RLeaf 2) ].
+
+Example ex_hypotheses :
+  wf_tmap ex_cs = true /\ unambiguous_tmap ex_dot ex_cs = true
+  /\ sepfree_tmap ex_dot ex_cs = true /\ tmap_depth ex_cs = 2%nat.
+Proof. vm_compute. auto. Qed.
+
+Example ex_permutation : Permutation ex_flat (map (ent ex_dot) (flat_all true ex_cs)).
+Proof.
+  apply NoDup_Permutation_bis.
+  - repeat constructor; cbn [In]; intuition discriminate.
+  - vm_compute. lia.
+  - intros x Hx. vm_compute in Hx |- *. intuition.
+Qed.
+
+Example ex_rollout :
+  rollout 3 ex_dot ex_flat =
+  Ok [ (RKStr false [114],
+        RDict [ (RKStr true [120], RLeaf 6);
+                (RKStr false [102],
+                 RDict [ (RKStr false [], RLeaf 5); (RKStr false [105; 100], RLeaf 3);
+                         (RKStr true [100], RLeaf 4) ]);
+                (RKStr false [110], RLeaf 2) ]);
+       (RKEll, REll);
+       (RKStr true [105; 100], RLeaf 7);
+       (RKStr false [105; 100], RLeaf 1) ].
 Proof. vm_compute. reflexivity. Qed.
+
+Example ex_equiv :
+  exists d, rollout 3 ex_dot ex_flat = Ok d /\ dict_equiv d (of_tmap true ex_cs) = true
+            /\ rdict_eqb d (of_tmap true ex_cs) = false.   (* equal as dicts, other key order *)
+Proof. eexists. split; [vm_compute; reflexivity|]. split; vm_compute; reflexivity. Qed.
+
+(* the theorem applies to the example *)
+Example ex_instance :
+  exists d, rollout 3 ex_dot ex_flat = Ok d
+            /\ dict_keys_ok d = true /\ dict_equiv d (of_tmap true ex_cs) = true.
+Proof.
+  apply rollout_flatten_inverse.
+  - discriminate.
+  - apply ex_hypotheses.
+  - apply ex_hypotheses.
+  - exact ex_permutation.
+  - vm_compute. lia.
+Qed.
+
+Example ex_nested_id :
+  nested_ok ex_dot (RDict (of_tmap true ex_cs)) = true
+  /\ rollout 3 ex_dot (of_tmap true ex_cs) = Ok (of_tmap true ex_cs).
+Proof. split; vm_compute; reflexivity. Qed.
